@@ -728,6 +728,31 @@ func (g *gen) history(run *lib.Run, steps int) []string {
 			buildOps(req)
 			run.Count("template-aba")
 			continue
+		case st > 0 && tpl == 4:
+			// template "cut-off, then nothing": edit an input that a catfirst target ignores (its action re-runs, the
+			// output is byte-identical), build, then build the unchanged tree twice: nothing may run
+			req := sinks()
+			var ignored []string
+			for _, l := range g.s.closure(req) {
+				if t := g.s.targets[l]; t.Kind == "catfirst" {
+					for _, x := range t.Srcs[min(1, len(t.Srcs)):] {
+						if !isLabel(x) {
+							ignored = append(ignored, pkgOf(l)+"/"+x)
+						}
+					}
+				}
+			}
+			if len(ignored) == 0 {
+				break
+			}
+			buildOps(req)
+			f := lib.Pick(g.r, ignored)
+			g.writeFile(filepath.Dir(f), filepath.Base(f))
+			buildOps(req)
+			buildOps(req)
+			buildOps(req)
+			run.Count("template-cutoff-then-noop")
+			continue
 		}
 		if st > 0 {
 			ne := g.r.Intn(3)
@@ -753,6 +778,10 @@ func (g *gen) history(run *lib.Run, steps int) []string {
 			}
 		}
 		buildOps(req)
+		if g.r.Chance(25) { // the same request again on the unchanged tree
+			buildOps(req)
+			run.Count("step-repeat-build")
+		}
 	}
 	return g.ops
 }
